@@ -81,7 +81,11 @@ class Reverter(object):
                         values.append(value)
 
                 for value in getattr(self.version_parent, prop.key, []):
-                    if value not in values:
+                    # A child reverted by this call belongs to the parent
+                    # its version shows. Its foreign key has been set back
+                    # already; a collection loaded before that change was
+                    # flushed still lists it.
+                    if value not in values and not self.is_reverted(value):
                         self.session.delete(value)
             else:
                 child = getattr(self.obj, prop.key)
@@ -124,6 +128,11 @@ class Reverter(object):
         return any(
             obj is self.obj or self.entity_key(obj) == key
             for obj in self.visited_objects
+        )
+
+    def is_reverted(self, obj):
+        return any(
+            version.version_parent is obj for version in self.visited_objects
         )
 
     def __call__(self):
